@@ -53,10 +53,13 @@ type IRtmp2MpegtsRemuxerObserver interface {
 type Rtmp2MpegtsRemuxer struct {
 	uk string
 
-	observer        IRtmp2MpegtsRemuxerObserver
-	filter          *rtmp2MpegtsFilter
-	videoOut        []byte // Annexb
-	spspps          []byte // Annexb 也可能是vps+sps+pps
+	observer IRtmp2MpegtsRemuxerObserver
+	filter   *rtmp2MpegtsFilter
+	videoOut []byte // Annexb
+	spspps   []byte // Annexb 也可能是vps+sps+pps
+	// the parameter sets `spspps` was built from, one by one (copies): a set that arrives in band
+	// replaces its counterpart here even if the others are not repeated next to it
+	vps, sps, pps   []byte
 	ascCtx          *aac.AscContext
 	audioCc         uint8
 	videoCc         uint8
@@ -207,17 +210,24 @@ func (s *Rtmp2MpegtsRemuxer) feedVideo(msg base.RtmpMsg) {
 		if s.spspps, err = avc.SpsPpsSeqHeader2Annexb(msg.Payload); err != nil {
 			Log.Errorf("[%s] cache spspps failed. err=%+v", s.uk, err)
 		}
+		// nil if the header carries several sps: in band sets then only replace the cache as a pair
+		s.vps = nil
+		s.sps, s.pps, _ = avc.ParseSpsPpsFromSeqHeader(msg.Payload)
 		return
 	} else if msg.IsHevcKeySeqHeader() {
+		var vps, sps, pps []byte
 		if msg.IsEnhanced() {
 			if s.spspps, err = hevc.VpsSpsPpsEnhancedSeqHeader2Annexb(msg.Payload); err != nil {
 				Log.Errorf("[%s] cache vpsspspps failed. err=%+v", s.uk, err)
 			}
+			vps, sps, pps, _ = hevc.ParseVpsSpsPpsFromEnhancedSeqHeader(msg.Payload)
 		} else {
 			if s.spspps, err = hevc.VpsSpsPpsSeqHeader2Annexb(msg.Payload); err != nil {
 				Log.Errorf("[%s] cache vpsspspps failed. err=%+v", s.uk, err)
 			}
+			vps, sps, pps, _ = hevc.ParseVpsSpsPpsFromSeqHeaderWithoutMalloc(msg.Payload)
 		}
+		s.vps, s.sps, s.pps = cloneBytes(vps), cloneBytes(sps), cloneBytes(pps)
 
 		return
 	}
@@ -239,7 +249,19 @@ func (s *Rtmp2MpegtsRemuxer) feedVideo(msg base.RtmpMsg) {
 		return
 	}
 
-	var vps, sps, pps []byte
+	// Parameter sets in band update the cache. Where the cache is written right before a key picture of this
+	// message they are dropped here, otherwise they stay where the publisher put them: a pps may change
+	// between any two pictures.
+	hasKeyNal := false
+	for _, nal := range nals {
+		if codecId == base.RtmpCodecIdAvc {
+			hasKeyNal = hasKeyNal || avc.ParseNaluType(nal[0]) == avc.NaluTypeIdrSlice
+		} else {
+			hasKeyNal = hasKeyNal || hevc.IsIrapNalu(hevc.ParseNaluType(nal[0]))
+		}
+	}
+	hasFrameNal := false
+
 	for _, nal := range nals {
 		var nalType uint8
 		switch codecId {
@@ -259,22 +281,23 @@ func (s *Rtmp2MpegtsRemuxer) feedVideo(msg base.RtmpMsg) {
 		//
 		// TODO(chef): rtmp转其他类型的模块也存在这个问题，应该抽象出一个统一处理的地方
 		//
+		isParamSet := false
 		if codecId == base.RtmpCodecIdAvc {
 			if nalType == avc.NaluTypeAud {
 				continue
 			} else if nalType == avc.NaluTypeSps {
-				sps = nal
-				continue
+				s.sps = cloneBytes(nal)
+				isParamSet = true
 			} else if nalType == avc.NaluTypePps {
-				pps = nal
-				if len(sps) != 0 && len(pps) != 0 {
-					s.spspps = s.spspps[0:0]
-					s.spspps = append(s.spspps, avc.NaluStartCode4...)
-					s.spspps = append(s.spspps, sps...)
-					s.spspps = append(s.spspps, avc.NaluStartCode4...)
-					s.spspps = append(s.spspps, pps...)
-				}
-				continue
+				s.pps = cloneBytes(nal)
+				isParamSet = true
+			}
+			if isParamSet && len(s.sps) != 0 && len(s.pps) != 0 {
+				s.spspps = s.spspps[0:0]
+				s.spspps = append(s.spspps, avc.NaluStartCode4...)
+				s.spspps = append(s.spspps, s.sps...)
+				s.spspps = append(s.spspps, avc.NaluStartCode4...)
+				s.spspps = append(s.spspps, s.pps...)
 			}
 		} else if codecId == base.RtmpCodecIdHevc {
 			if nalType == hevc.NaluTypeSei || nalType == hevc.NaluTypeSeiSuffix {
@@ -284,24 +307,31 @@ func (s *Rtmp2MpegtsRemuxer) feedVideo(msg base.RtmpMsg) {
 			if nalType == hevc.NaluTypeAud {
 				continue
 			} else if nalType == hevc.NaluTypeVps {
-				vps = nal
-				continue
+				s.vps = cloneBytes(nal)
+				isParamSet = true
 			} else if nalType == hevc.NaluTypeSps {
-				sps = nal
-				continue
+				s.sps = cloneBytes(nal)
+				isParamSet = true
 			} else if nalType == hevc.NaluTypePps {
-				pps = nal
-				if len(vps) != 0 && len(sps) != 0 && len(pps) != 0 {
-					s.spspps = s.spspps[0:0]
-					s.spspps = append(s.spspps, avc.NaluStartCode4...)
-					s.spspps = append(s.spspps, vps...)
-					s.spspps = append(s.spspps, avc.NaluStartCode4...)
-					s.spspps = append(s.spspps, sps...)
-					s.spspps = append(s.spspps, avc.NaluStartCode4...)
-					s.spspps = append(s.spspps, pps...)
-				}
+				s.pps = cloneBytes(nal)
+				isParamSet = true
+			}
+			if isParamSet && len(s.vps) != 0 && len(s.sps) != 0 && len(s.pps) != 0 {
+				s.spspps = s.spspps[0:0]
+				s.spspps = append(s.spspps, avc.NaluStartCode4...)
+				s.spspps = append(s.spspps, s.vps...)
+				s.spspps = append(s.spspps, avc.NaluStartCode4...)
+				s.spspps = append(s.spspps, s.sps...)
+				s.spspps = append(s.spspps, avc.NaluStartCode4...)
+				s.spspps = append(s.spspps, s.pps...)
+			}
+		}
+		if isParamSet {
+			if hasKeyNal {
 				continue
 			}
+		} else {
+			hasFrameNal = true
 		}
 
 		// tag中的首个nalu前面写入aud
@@ -360,7 +390,7 @@ func (s *Rtmp2MpegtsRemuxer) feedVideo(msg base.RtmpMsg) {
 		s.videoOut = append(s.videoOut, nal...)
 	} // for loop
 
-	if len(s.videoOut) == 0 {
+	if len(s.videoOut) == 0 || !hasFrameNal {
 		// 比如只有SEI nal或者非seq header的msg只有sps, pps, vps
 		return
 	}
@@ -444,6 +474,13 @@ func (s *Rtmp2MpegtsRemuxer) appendSpsPps(out []byte) ([]byte, error) {
 
 	out = append(out, s.spspps...)
 	return out, nil
+}
+
+func cloneBytes(b []byte) []byte {
+	if b == nil {
+		return nil
+	}
+	return append([]byte{}, b...)
 }
 
 func (s *Rtmp2MpegtsRemuxer) videoSeqHeaderCached() bool {
